@@ -177,6 +177,7 @@ C12_ValidateClean == IsStep => cur.val = "clean"
 C13_AppendOnly == (IsStep /\ NonRepack) => AppendOnly(O0, O, cur.grow)
 C13_Numbering == cur.norepack => PackNumbering(O, Target)
 C13_OnlyLastGrows == (IsStep /\ cur.norepack) => OnlyLastPackGrows(O0, O)
+C13_FilledInOrder == cur.norepack => FilledInOrder(O)
 
 (* ---- C18 (descriptor census after each call; the harness counts /proc/self/fd) ---- *)
 C18_NoFdLeak == IsStep => cur.fds = 0
